@@ -720,10 +720,15 @@ def _ctor_must_reject(kw):
     cm = kw.get('compute_method', ComputeMethod.EIGEN)
     cm = ComputeMethod[cm.upper()] if isinstance(cm, str) else cm
     f = kw.get('grad_worker_fraction', DistributedStrategy.COMM_OPT)
+    W = _ws()
+    if isinstance(f, DistributedStrategy):
+        # a named strategy is a fraction too (HYBRID-OPT = 1/2 needs an even world)
+        f = {DistributedStrategy.COMM_OPT: 1.0, DistributedStrategy.HYBRID_OPT: 0.5, DistributedStrategy.MEM_OPT: 1.0 / W}[f]
+        g = max(1.0, W * f)
+        return abs(g - round(g)) > 1e-6 or W % round(g) != 0
     if not isinstance(f, DistributedStrategy):
         if not (0 <= f <= 1):
             return True
-        W = _ws()
         if f == 0:
             f = 1.0 / W
         # every k / world_size with k dividing world_size is accepted (C06); a fraction is rejected when the worker
